@@ -465,8 +465,20 @@ def rule_main_compiles_every_source(em, rep, rid):
         return False
     cfg = em.cfg(main)
 
+    # simple statements that hold a compile call somewhere inside (an argument, a comprehension, a generator expression)
+    simple = set()
+    for c in calls:
+        for p in parents(c):
+            if isinstance(p, (ast.Expr, ast.Assign, ast.AugAssign, ast.AnnAssign, ast.Return)):
+                simple.add(p)
+                break
+            if isinstance(p, ast.FunctionDef):
+                break
+
     def passes(m):
         if m.kind == 'fornext' and m.stmt in loops:
+            return True
+        if m.stmt in simple and m.kind != 'return':
             return True
         return m.kind == 'call' and isinstance(m.ast, ast.Call) and m.ast in calls
 
